@@ -447,6 +447,158 @@ static int node_ok(const char *s) {
   return n < ref_node_max(ref_grid_node(G)) && ref_node_valid(ref_grid_node(G), (REF_INT)n);
 }
 
+/* one op: its records, then (in main) the terminator line `. <op>` */
+static void do_op(void) {
+  const char *op = h_w[0];
+  if (0 == strcmp(op, "grid")) {
+    if (!build_grid()) {
+      fputs("bad-op\n", out);
+      return;
+    }
+    print_bg();
+  } else if (NULL == G) {
+    fputs("bad-op\n", out);
+  } else if (0 == strcmp(op, "setcell") || 0 == strcmp(op, "setpart")) {
+    REF_INTERP ri = ref_grid_interp(G);
+    if (3 != h_nw || !node_ok(h_w[1]) || !is_int(h_w[2]) || NULL == ri || h_i(h_w[1]) >= ref_interp_max(ri)) {
+      fputs("bad-op\n", out);
+      return;
+    }
+    if ('c' == op[3]) {
+      REF_CELL fc = ref_grid_twod(G) ? ref_interp_from_tri(ri) : ref_interp_from_tet(ri);
+      long long c = h_i(h_w[2]);
+      if (-1 != c && (c < 0 || c >= ref_cell_max(fc) || !ref_cell_valid(fc, (REF_INT)c))) {
+        fputs("bad-op\n", out);
+        return;
+      }
+      ref_interp_cell(ri, h_i(h_w[1])) = (REF_INT)c;
+    } else {
+      ref_interp_part(ri, h_i(h_w[1])) = (REF_INT)h_i(h_w[2]);
+    }
+    fputs("ok\n", out);
+  } else if (0 == strcmp(op, "interp") || 0 == strcmp(op, "move")) {
+    REF_INT node;
+    int i;
+    if ('i' == op[0] ? (2 != h_nw) : (5 != h_nw || !all_hex(2, 5))) {
+      fputs("bad-op\n", out);
+      return;
+    }
+    if (!node_ok(h_w[1])) {
+      fputs("bad-op\n", out);
+      return;
+    }
+    node = (REF_INT)h_i(h_w[1]);
+    if ('m' == op[0])
+      for (i = 0; i < 3; i++) ref_node_xyz(ref_grid_node(G), i, node) = h_f(h_w[2 + i]);
+    rec_on = 1;
+    (void)h_wrap_interp_node(G, node);
+    rec_on = 0;
+  } else if (0 == strcmp(op, "between")) {
+    REF_NODE rn = ref_grid_node(G);
+    REF_INT n0, n1, new_node;
+    REF_GLOB global;
+    REF_STATUS s;
+    int i;
+    if (!((4 == h_nw || 7 == h_nw) && node_ok(h_w[1]) && node_ok(h_w[2]) && all_hex(3, h_nw))) {
+      fputs("bad-op\n", out);
+      return;
+    }
+    n0 = (REF_INT)h_i(h_w[1]);
+    n1 = (REF_INT)h_i(h_w[2]);
+    if (n0 == n1 || !(h_f(h_w[3]) >= 0.0 && h_f(h_w[3]) <= 1.0)) {
+      fputs("bad-op\n", out);
+      return;
+    }
+    s = ref_node_next_global(rn, &global);
+    if (REF_SUCCESS == s) s = ref_node_add(rn, global, &new_node);
+    if (REF_SUCCESS != s) {
+      fprintf(out, "skip add-%s\n", h_status(s));
+      return;
+    }
+    s = ref_node_interpolate_edge(rn, n0, n1, h_f(h_w[3]), new_node);
+    if (REF_SUCCESS != s) {
+      fprintf(out, "skip edge-%s\n", h_status(s));
+    } else {
+      if (7 == h_nw)
+        for (i = 0; i < 3; i++) ref_node_xyz(rn, i, new_node) = h_f(h_w[4 + i]);
+      rec_on = 1;
+      (void)h_wrap_between(G, n0, n1, new_node);
+      rec_on = 0;
+    }
+    if (REF_SUCCESS != ref_node_remove(rn, new_node)) exit(8);
+  } else if (0 == strcmp(op, "improve")) {
+    REF_INT node;
+    REF_STATUS s = REF_SUCCESS;
+    int ints[3];
+    char kind[24];
+    if (3 != h_nw || !node_ok(h_w[2]) ||
+        !(0 == strcmp(h_w[1], "edge") || 0 == strcmp(h_w[1], "tri") || 0 == strcmp(h_w[1], "tet"))) {
+      fputs("bad-op\n", out);
+      return;
+    }
+    node = (REF_INT)h_i(h_w[2]);
+    ints[0] = node;
+    ints[1] = ints[2] = REF_EMPTY;
+    snprintf(kind, sizeof(kind), "smooth_%s", h_w[1]);
+    rec_on = 1;
+    my_op("begin", kind, (void *)G, 3, ints);
+    if ('e' == h_w[1][0])
+      s = ref_smooth_no_geom_edge_improve(G, node);
+    else if ('r' == h_w[1][1])
+      s = ref_smooth_no_geom_tri_improve(G, node);
+    else
+      s = ref_smooth_tet_improve(G, node);
+    my_op("end", kind, (void *)G, 3, ints);
+    rec_on = 0;
+    if (REF_SUCCESS != s) fprintf(out, "A %s %s %d\n", h_status(s), h_w[1], node);
+  } else if (0 == strcmp(op, "pass")) {
+    REF_STATUS s = REF_SUCCESS;
+    REF_BOOL all_done;
+    const char *p;
+    if (2 != h_nw || strlen(h_w[1]) > 32) {
+      fputs("bad-op\n", out);
+      return;
+    }
+    n_I = n_B = n_C = 0;
+    rec_on = 1;
+    in_improve = 0;
+    for (p = h_w[1]; *p && REF_SUCCESS == s; p++) {
+      switch (*p) {
+        case 'm': s = ref_smooth_pass(G); break;
+        case 'a': s = ref_adapt_pass(G, &all_done); break;
+        case 's': s = ref_split_pass(G); break;
+        case 'c': s = ref_collapse_pass(G); break;
+        case 'w': s = ref_grid_twod(G) ? ref_swap_tri_pass(G) : REF_SUCCESS; break;
+        case 'y': s = ref_metric_synchronize(G); break;
+        case 'p': s = ref_grid_pack(G); break;
+        default: break;
+      }
+    }
+    rec_on = 0;
+    in_improve = 0;
+    fprintf(out, "done %s nI=%d nB=%d nC=%d nnode=%d\n", h_status(s), n_I, n_B, n_C, ref_node_n(ref_grid_node(G)));
+  } else if (0 == strcmp(op, "dump")) {
+    REF_NODE rn = ref_grid_node(G);
+    REF_INTERP ri = ref_grid_interp(G);
+    REF_INT node;
+    int i;
+    fprintf(out, "N %d", ref_node_n(rn));
+    each_ref_node_valid_node(rn, node) {
+      fprintf(out, " %d", node);
+      for (i = 0; i < 3; i++) pf(ref_node_xyz(rn, i, node));
+      for (i = 0; i < 6; i++) pf(ref_node_real(rn, 3 + i, node));
+      for (i = 0; i < 6; i++) pf(ref_node_real(rn, 9 + i, node));
+      if (NULL != ri && node < ref_interp_max(ri))
+        fprintf(out, " %d %d", ref_interp_cell(ri, node), ref_interp_part(ri, node));
+      else
+        fprintf(out, " -1 -1");
+    }
+    fputc('\n', out);
+  } else {
+    fputs("bad-op\n", out);
+  }
+}
+
 int main(int argc, char *argv[]) {
   int fd = dup(1);
   if (fd < 0) return 3;
@@ -457,154 +609,8 @@ int main(int argc, char *argv[]) {
   if (REF_SUCCESS != ref_mpi_create(&ref_mpi)) return 3;
   ref_verif_op_fcn = my_op;
   while (h_next(stdin)) {
-    const char *op = h_w[0];
-    if (0 == strcmp(op, "grid")) {
-      if (!build_grid()) {
-        fputs("bad-op\n", out);
-        continue;
-      }
-      print_bg();
-    } else if (NULL == G) {
-      fputs("bad-op\n", out);
-    } else if (0 == strcmp(op, "setcell") || 0 == strcmp(op, "setpart")) {
-      REF_INTERP ri = ref_grid_interp(G);
-      if (3 != h_nw || !node_ok(h_w[1]) || !is_int(h_w[2]) || NULL == ri || h_i(h_w[1]) >= ref_interp_max(ri)) {
-        fputs("bad-op\n", out);
-        continue;
-      }
-      if ('c' == op[3]) {
-        REF_CELL fc = ref_grid_twod(G) ? ref_interp_from_tri(ri) : ref_interp_from_tet(ri);
-        long long c = h_i(h_w[2]);
-        if (-1 != c && (c < 0 || c >= ref_cell_max(fc) || !ref_cell_valid(fc, (REF_INT)c))) {
-          fputs("bad-op\n", out);
-          continue;
-        }
-        ref_interp_cell(ri, h_i(h_w[1])) = (REF_INT)c;
-      } else {
-        ref_interp_part(ri, h_i(h_w[1])) = (REF_INT)h_i(h_w[2]);
-      }
-      fputs("ok\n", out);
-    } else if (0 == strcmp(op, "interp") || 0 == strcmp(op, "move")) {
-      REF_INT node;
-      int i;
-      if ('i' == op[0] ? (2 != h_nw) : (5 != h_nw || !all_hex(2, 5))) {
-        fputs("bad-op\n", out);
-        continue;
-      }
-      if (!node_ok(h_w[1])) {
-        fputs("bad-op\n", out);
-        continue;
-      }
-      node = (REF_INT)h_i(h_w[1]);
-      if ('m' == op[0])
-        for (i = 0; i < 3; i++) ref_node_xyz(ref_grid_node(G), i, node) = h_f(h_w[2 + i]);
-      rec_on = 1;
-      (void)h_wrap_interp_node(G, node);
-      rec_on = 0;
-    } else if (0 == strcmp(op, "between")) {
-      REF_NODE rn = ref_grid_node(G);
-      REF_INT n0, n1, new_node;
-      REF_GLOB global;
-      REF_STATUS s;
-      int i;
-      if (!((4 == h_nw || 7 == h_nw) && node_ok(h_w[1]) && node_ok(h_w[2]) && all_hex(3, h_nw))) {
-        fputs("bad-op\n", out);
-        continue;
-      }
-      n0 = (REF_INT)h_i(h_w[1]);
-      n1 = (REF_INT)h_i(h_w[2]);
-      if (n0 == n1 || !(h_f(h_w[3]) >= 0.0 && h_f(h_w[3]) <= 1.0)) {
-        fputs("bad-op\n", out);
-        continue;
-      }
-      s = ref_node_next_global(rn, &global);
-      if (REF_SUCCESS == s) s = ref_node_add(rn, global, &new_node);
-      if (REF_SUCCESS != s) {
-        fprintf(out, "skip add-%s\n", h_status(s));
-        continue;
-      }
-      s = ref_node_interpolate_edge(rn, n0, n1, h_f(h_w[3]), new_node);
-      if (REF_SUCCESS != s) {
-        fprintf(out, "skip edge-%s\n", h_status(s));
-      } else {
-        if (7 == h_nw)
-          for (i = 0; i < 3; i++) ref_node_xyz(rn, i, new_node) = h_f(h_w[4 + i]);
-        rec_on = 1;
-        (void)h_wrap_between(G, n0, n1, new_node);
-        rec_on = 0;
-      }
-      if (REF_SUCCESS != ref_node_remove(rn, new_node)) exit(8);
-    } else if (0 == strcmp(op, "improve")) {
-      REF_INT node;
-      REF_STATUS s = REF_SUCCESS;
-      int ints[3];
-      char kind[24];
-      if (3 != h_nw || !node_ok(h_w[2]) ||
-          !(0 == strcmp(h_w[1], "edge") || 0 == strcmp(h_w[1], "tri") || 0 == strcmp(h_w[1], "tet"))) {
-        fputs("bad-op\n", out);
-        continue;
-      }
-      node = (REF_INT)h_i(h_w[2]);
-      ints[0] = node;
-      ints[1] = ints[2] = REF_EMPTY;
-      snprintf(kind, sizeof(kind), "smooth_%s", h_w[1]);
-      rec_on = 1;
-      my_op("begin", kind, (void *)G, 3, ints);
-      if ('e' == h_w[1][0])
-        s = ref_smooth_no_geom_edge_improve(G, node);
-      else if ('r' == h_w[1][1])
-        s = ref_smooth_no_geom_tri_improve(G, node);
-      else
-        s = ref_smooth_tet_improve(G, node);
-      my_op("end", kind, (void *)G, 3, ints);
-      rec_on = 0;
-      if (REF_SUCCESS != s) fprintf(out, "A %s %s %d\n", h_status(s), h_w[1], node);
-    } else if (0 == strcmp(op, "pass")) {
-      REF_STATUS s = REF_SUCCESS;
-      REF_BOOL all_done;
-      const char *p;
-      if (2 != h_nw || strlen(h_w[1]) > 32) {
-        fputs("bad-op\n", out);
-        continue;
-      }
-      n_I = n_B = n_C = 0;
-      rec_on = 1;
-      in_improve = 0;
-      for (p = h_w[1]; *p && REF_SUCCESS == s; p++) {
-        switch (*p) {
-          case 'm': s = ref_smooth_pass(G); break;
-          case 'a': s = ref_adapt_pass(G, &all_done); break;
-          case 's': s = ref_split_pass(G); break;
-          case 'c': s = ref_collapse_pass(G); break;
-          case 'w': s = ref_grid_twod(G) ? ref_swap_tri_pass(G) : REF_SUCCESS; break;
-          case 'y': s = ref_metric_synchronize(G); break;
-          case 'p': s = ref_grid_pack(G); break;
-          default: break;
-        }
-      }
-      rec_on = 0;
-      in_improve = 0;
-      fprintf(out, "done %s nI=%d nB=%d nC=%d nnode=%d\n", h_status(s), n_I, n_B, n_C, ref_node_n(ref_grid_node(G)));
-    } else if (0 == strcmp(op, "dump")) {
-      REF_NODE rn = ref_grid_node(G);
-      REF_INTERP ri = ref_grid_interp(G);
-      REF_INT node;
-      int i;
-      fprintf(out, "N %d", ref_node_n(rn));
-      each_ref_node_valid_node(rn, node) {
-        fprintf(out, " %d", node);
-        for (i = 0; i < 3; i++) pf(ref_node_xyz(rn, i, node));
-        for (i = 0; i < 6; i++) pf(ref_node_real(rn, 3 + i, node));
-        for (i = 0; i < 6; i++) pf(ref_node_real(rn, 9 + i, node));
-        if (NULL != ri && node < ref_interp_max(ri))
-          fprintf(out, " %d %d", ref_interp_cell(ri, node), ref_interp_part(ri, node));
-        else
-          fprintf(out, " -1 -1");
-      }
-      fputc('\n', out);
-    } else {
-      fputs("bad-op\n", out);
-    }
+    do_op();
+    fprintf(out, ". %s\n", h_w[0]);
   }
   fflush(out);
   ref_verif_op_fcn = NULL;
